@@ -33,31 +33,38 @@ Record st := {
   next : nat; flushed : nat; dropped : nat;
   since : nat;                   (* ghost: id of the first record of the current main file *)
   events : list (Z * Z);
-  fuel : option nat; crashed : bool; fault : bool
+  fuel : option nat; crashed : bool; fault : bool;
+  rfail : option nat             (* oracle: Some n = the (n+1)-th os.rename call from now raises OSError *)
 }.
 
 (* ---- record update helpers ---- *)
 Definition set_disk (s : st) (fs : list (option content)) (hb : option content) : st :=
   {| now := now s; files := fs; hbuf := hb; first := first s; active := active s;
      flushStamp := flushStamp s; cycleStamp := cycleStamp s; next := next s; flushed := flushed s;
-     dropped := dropped s; since := since s; events := events s; fuel := fuel s; crashed := crashed s; fault := fault s |}.
+     dropped := dropped s; since := since s; events := events s; fuel := fuel s; crashed := crashed s; fault := fault s; rfail := rfail s |}.
 Definition set_ghost (s : st) (n f d : nat) (ev : list (Z * Z)) : st :=
   {| now := now s; files := files s; hbuf := hbuf s; first := first s; active := active s;
      flushStamp := flushStamp s; cycleStamp := cycleStamp s; next := n; flushed := f;
-     dropped := d; since := since s; events := ev; fuel := fuel s; crashed := crashed s; fault := fault s |}.
+     dropped := d; since := since s; events := ev; fuel := fuel s; crashed := crashed s; fault := fault s; rfail := rfail s |}.
 Definition set_vars (s : st) (t : Z) (fi a : bool) (fs cs : Z) : st :=
   {| now := t; files := files s; hbuf := hbuf s; first := fi; active := a;
      flushStamp := fs; cycleStamp := cs; next := next s; flushed := flushed s;
-     dropped := dropped s; since := since s; events := events s; fuel := fuel s; crashed := crashed s; fault := fault s |}.
+     dropped := dropped s; since := since s; events := events s; fuel := fuel s; crashed := crashed s; fault := fault s; rfail := rfail s |}.
 Definition set_fuel (s : st) (fu : option nat) (cr fa : bool) : st :=
   {| now := now s; files := files s; hbuf := hbuf s; first := first s; active := active s;
      flushStamp := flushStamp s; cycleStamp := cycleStamp s; next := next s; flushed := flushed s;
-     dropped := dropped s; since := since s; events := events s; fuel := fu; crashed := cr; fault := fa |}.
+     dropped := dropped s; since := since s; events := events s; fuel := fu; crashed := cr; fault := fa; rfail := rfail s |}.
 
 Definition set_since (s : st) (n : nat) : st :=
   {| now := now s; files := files s; hbuf := hbuf s; first := first s; active := active s;
      flushStamp := flushStamp s; cycleStamp := cycleStamp s; next := next s; flushed := flushed s;
-     dropped := dropped s; since := n; events := events s; fuel := fuel s; crashed := crashed s; fault := fault s |}.
+     dropped := dropped s; since := n; events := events s; fuel := fuel s; crashed := crashed s; fault := fault s; rfail := rfail s |}.
+
+Definition set_rfail (s : st) (rf : option nat) (fa : bool) : st :=
+  {| now := now s; files := files s; hbuf := hbuf s; first := first s; active := active s;
+     flushStamp := flushStamp s; cycleStamp := cycleStamp s; next := next s; flushed := flushed s;
+     dropped := dropped s; since := since s; events := events s; fuel := fuel s; crashed := crashed s;
+     fault := fa; rfail := rf |}.
 
 (* ---- content ---- *)
 Definition ids (c : content) : list nat :=
@@ -149,20 +156,34 @@ Definition log_reopen (k : nat) (s : st) : st :=
                      (flushStamp s1) (cycleStamp s1) in
   trials k (prim f_open_append s2).
 
+(* one os.rename call is attempted: the process may be dead / die here (crash fuel), or the call raises an
+   injected OSError (oracle rfail); returns (state, proceed?) *)
+Definition rename_gate (s : st) : st * bool :=
+  if crashed s then (s, false) else
+  match fuel s with
+  | Some O => (set_fuel s (Some O) true (fault s), false)
+  | fu =>
+      let s1 := set_fuel s (match fu with Some (S n) => Some n | _ => fu end) false (fault s) in
+      match rfail s1 with
+      | Some O => (set_rfail s1 None true, false)
+      | Some (S n) => (set_rfail s1 (Some n) (fault s1), true)
+      | None => (s1, true)
+      end
+  end.
+
 (* the rename chain os.rename(paths[k], paths[k+1]) for k = keep-1 .. 0 on the oldest-first list:
-   a0 (oldest) is replaced by a1, a1 by a2, ...; a missing source is an OSError: the loop breaks *)
+   a0 (oldest) is replaced by a1, a1 by a2, ...; an OSError (injected, or a missing source) sets [fault]: the
+   loop BREAKS there -- nothing further is renamed, nothing is overwritten *)
 Fixpoint chain (a0 : option content) (rest : list (option content)) (s : st)
   : st * list (option content) :=
   match rest with
   | [] => (s, [a0])
   | a1 :: rest' =>
-      if crashed s then (s, a0 :: rest) else
-      match fuel s with
-      | Some O => (set_fuel s (Some O) true (fault s), a0 :: rest)
-      | fu =>
-          let s' := set_fuel s (match fu with Some (S n) => Some n | _ => fu end) false (fault s) in
+      match rename_gate s with
+      | (s', false) => (s', a0 :: rest)
+      | (s', true) =>
           match a1 with
-          | None => (set_fuel s' (fuel s') false true, a0 :: rest)
+          | None => (set_rfail s' (rfail s') true, a0 :: rest)
           | Some c => let '(s'', r') := chain None rest' s' in (s'', Some c :: r')
           end
       end
@@ -238,13 +259,17 @@ Definition init (c : cfg) (t0 : Z) (d0 : list (option content)) (n0 dr0 : nat) (
   {| now := t0; files := d0; hbuf := None; first := true; active := false;
      flushStamp := 0; cycleStamp := 0; next := n0; flushed := n0; dropped := dr0;
      since := (n0 - length (oids (last d0 None)))%nat; events := [];
-     fuel := fu; crashed := false; fault := false |}.
+     fuel := fu; crashed := false; fault := false; rfail := None |}.
 
 Definition empty_disk (c : cfg) : list (option content) := repeat None (S (keep c)).
 
 Definition runfrom (c : cfg) (s : st) (ops : list op) : st := fold_left (step c) ops s.
 Definition run (c : cfg) (t0 : Z) (fu : option nat) (ops : list op) : st :=
   runfrom c (init c t0 (empty_disk c) O O fu) ops.
+
+(* the same with a rename-failure oracle: the (n+1)-th os.rename call of the process raises OSError *)
+Definition runf (c : cfg) (t0 : Z) (fu rf : option nat) (ops : list op) : st :=
+  runfrom c (set_rfail (init c t0 (empty_disk c) O O fu) rf false) ops.
 
 (* ---- vocabulary of the property statements ----------------------------------- *)
 (* what survives the death of the process: the disk, where main may also have received any prefix of the
